@@ -297,8 +297,15 @@ class InterpStmts:
         if isinstance(tgt, ast.Subscript):
             out = []
             for base, s1 in self.eval(tgt.value, st):
+                if isinstance(base, self.EmptyLit) and base.typ is dict and isinstance(tgt.value, ast.Name):
+                    base = {}       # `x = {}` filled with constant keys: a static record local to the function
                 for idx, s2 in self.eval(tgt.slice, s1):
+                    self._setitem_target = None
+                    if isinstance(base, dict) and isinstance(tgt.value, ast.Name):
+                        fid = s2.lookup_frame(tgt.value.id)
+                        self._setitem_target = (tgt.value.id, fid)
                     out.extend(self.setitem(s2, base, idx, v))
+                    self._setitem_target = None
             return out
         raise Unsupported("assignment target %s" % type(tgt).__name__)
 
@@ -351,6 +358,11 @@ class InterpStmts:
         SV = self.SV
         if isinstance(base, self.EmptyLit):
             raise Unsupported("untyped empty container: add a `vars` kind hint in the contract")
+        if isinstance(base, dict) and isinstance(idx, str) and getattr(self, "_setitem_target", None):
+            name, fid = self._setitem_target
+            newd = dict(base)
+            newd[idx] = v
+            return [st.setvar(name, newd, fid)]
         if not isinstance(base, SV):
             h = self.lib.get("setitem:" + getattr(base, "name", type(base).__name__))
             if h:
@@ -871,12 +883,20 @@ class InterpStmts:
                 return IterSpec("set", mem=d.tree[0], ekind=kk, elem=elem)
         if isinstance(v, SV):
             t = v.kind.tag
+            if t == "set" and v.meta and v.meta.get("unordered"):
+                return self.lib["iter:upairs"].fn(self, st, v)
             if t == "set":
                 kk = v.kind.args[0]
-                return IterSpec("set", mem=v.tree, ekind=kk, elem=lambda x, s: SV(kk, from_key(kk, x)))
+                return IterSpec("set", mem=v.tree, ekind=kk, elem=lambda x, s: SV(kk, from_key(kk, x)), identity=True)
             if t == "dict":
                 kk = v.kind.args[0]
                 return IterSpec("set", mem=v.tree[0], ekind=kk, elem=lambda x, s: SV(kk, from_key(kk, x)))
+            if t == "list" and z3.is_int_value(z3.simplify(v.tree[0])) and z3.simplify(v.tree[0]).as_long() <= 64:
+                ek = v.kind.args[0]
+                n = z3.simplify(v.tree[0]).as_long()
+                return IterSpec("concrete", items=[SV(ek, tmap(lambda a: z3.simplify(z3.Select(a, z3.IntVal(i))), v.tree[1]),
+                                                      ("item", v.origin, v.kind, z3.IntVal(i)) if v.origin else None)
+                                                   for i in range(n)])
             if t == "list":
                 ek = v.kind.args[0]
                 return IterSpec("seq", length=v.tree[0], ekind=ek,
@@ -1015,6 +1035,8 @@ class InterpStmts:
             return self.make_set(vals) if vals else set()
         spec, x, s2, dom, guard = self.comp_symbolic(e, st)
         v, _ = self.eval1(e.elt, s2)
+        if type(v).__name__ == "UPair":
+            return self.lib["comp_set:upair"].fn(self, x, dom, guard, v)
         v = self.tup_to_sv(v)
         ek = v.kind
         res = z3.Const(core.fresh_name("setc"), z3.ArraySort(keysort(ek), core.B))
